@@ -41,7 +41,9 @@ func fromCps(a []any) string {
 func evalTemplate(r jsrunner.JSRunner, body string) map[string]any {
 	// the tag's return value is an object only the tag can produce, and it must have been called exactly once:
 	// a body that ends the literal early makes the rest parse as more JS, which then cannot evaluate to that object
-	_, err := r.RunString("var __n = 0, __last = null; function __tag(s){ __n++; __last = {s: s}; return __last; }; var __r = __tag`" + body + "`;")
+	// (the parentheses keep automatic semicolon insertion after a line terminator in the body from splitting the rest off
+	// into a statement of its own)
+	_, err := r.RunString("var __n = 0, __last = null; function __tag(s){ __n++; __last = {s: s}; return __last; }; var __r = (__tag`" + body + "`);")
 	if err != nil {
 		return map[string]any{"err": strings.SplitN(err.Error(), ":", 2)[0]}
 	}
